@@ -620,6 +620,7 @@ def op_set_pickler(op, oid, ctx):
 def op_mk(op, oid, ctx):
     ctxname = op.get("ctx", "loky")
     c = get_context(ctxname)
+    before = shm_list()
     t = op["type"]
     if t == "Semaphore":
         o = c.Semaphore(op.get("n", 1))
@@ -630,13 +631,39 @@ def op_mk(op, oid, ctx):
     else:
         o = getattr(c, t)()
     OBJS[op["obj"]] = o
-    return {"shm": shm_list()}
+    if t in ("Queue", "SimpleQueue") and op.get("use"):
+        o.put(("x", 1))
+        o.get()
+    after = shm_list()
+    OBJ_NAMES[op["obj"]] = set(after or []) - set(before or [])
+    return {"before": before, "shm": after}
+
+
+OBJ_NAMES = {}
 
 
 def op_drop(op, oid, ctx):
-    OBJS.pop(op["obj"], None)
+    o = OBJS.pop(op["obj"], None)
+    # a used multiprocessing-style Queue is kept alive by its own feeder thread (bound-method
+    # argument) until close(): releasing it properly means closing it, as with the stdlib's
+    if o is not None and hasattr(o, "close") and hasattr(o, "put"):
+        try:
+            o.close()
+            if hasattr(o, "join_thread"):
+                o.join_thread()
+        except Exception as e:
+            log("drop_close_error", err=repr(e))
+    del o
     gc.collect()
-    return {"shm": shm_list()}
+    # A used Queue's feeder thread (daemon) holds the last references to some of its
+    # semaphores until it has seen the close sentinel: bounded settle, then report.
+    names = OBJ_NAMES.pop(op["obj"], set())
+    deadline = time.monotonic() + op.get("grace", 5.0)
+    waited = 0
+    while names & set(shm_list() or []) and time.monotonic() < deadline:
+        time.sleep(0.01)
+        waited += 1
+    return {"shm": shm_list(), "settle_polls": waited}
 
 
 def op_use_obj(op, oid, ctx):
@@ -651,7 +678,21 @@ def op_use_obj(op, oid, ctx):
 
 def op_shmlist(op, oid, ctx):
     gc.collect()
-    return {"shm": shm_list()}
+    waited = 0
+    if op.get("expect_empty"):
+        # multiprocessing keeps finished-but-unjoined Process objects (and what they reference, e.g. a
+        # crashed worker's exit lock) in its module-level children set until the next start() or
+        # active_children() call: do what any user code does implicitly, then look.
+        import multiprocessing as _mp
+
+        _mp.active_children()
+        gc.collect()
+        deadline = time.monotonic() + op.get("grace", 5.0)
+        while shm_list() and time.monotonic() < deadline:
+            time.sleep(0.01)
+            gc.collect()
+            waited += 1
+    return {"shm": shm_list(), "settle_polls": waited}
 
 
 def op_canary(op, oid, ctx):
